@@ -542,7 +542,11 @@ static void fam_run(uint64_t seed, const RunOpts *o, Result *r) {
         }
     } else if (P.mode == 1) {
         /* lazily launched daemon (default 300 s idle timeout): it must still answer at t = 20 s */
-        if (daemon && !pr.pong) { res_violation(r, prop, "no-pong-after-faults"); buf_printf(&r->detail, "prober: connected=%d pong=%d errno=%d (lazy daemon)\n", pr.connected, pr.pong, pr.err); }
+        /* whatever the sessions did, nothing may have killed the daemon with a signal */
+        for (int i = 0; i < sim_nprocs(); i++) { SimProc *q = sim_proc_at(i);
+            if (q->img && strcmp(q->img->name, "nano_vmd") == 0 && !q->in_vfork_child && !q->alive && WIFSIGNALED(q->status)) {
+                res_violation(r, prop, "daemon-killed-by-signal:%d", WTERMSIG(q->status)); buf_printf(&r->detail, "the lazily launched daemon (pid %d) was killed by signal %d\n", q->pid, WTERMSIG(q->status)); break; } }
+        if (daemon && !pr.pong && strcmp(r->verdict, "violation") != 0) { res_violation(r, prop, "no-pong-after-faults"); buf_printf(&r->detail, "prober: connected=%d pong=%d errno=%d (lazy daemon)\n", pr.connected, pr.pong, pr.err); }
     }
     for (int i = 0; i < P.nbad && !budget_out; i++) if (!bs[i].done) { res_violation(r, prop, "bad-peer-stuck:%s", bk_name[P.b[i].kind]); }
     /* no co-process may survive */
